@@ -393,9 +393,46 @@ def parse_consts():
         if not re.search(r'return\s+v\s*;', body):
             raise Refuse('%s: strToInt guard changed shape (result)' % fname)
         return cmps[0]
-    guards['gen'] = guard_of(g, 'gen.cpp')
     mc = read('Compiler/src/macro.cpp')
-    guards['macro'] = guard_of(mc, 'macro.cpp')
+
+    def probe(kind):
+        """fallback when the guard's text is not recognised (a refactoring moved it): read the threshold off the BEHAVIOUR of the
+        code built from the working tree (harness given in THEO_HARNESS): which of 2^31-2, 2^31-1, 2^31 is rejected"""
+        h = os.environ.get('THEO_HARNESS')
+        if not h or not os.path.exists(h):
+            return None
+        import subprocess
+
+        def hx(b):
+            return 'x' + b.hex()
+
+        def rejected(n):
+            src = (b'x0 := %d' % n) if kind == 'gen' else (b'DEFINE PRIO %d foo AS x0 := 1 END DEFINE foo' % n)
+            req = 'GEN %s 1 %s %s\n' % (hx(b'm'), hx(b'm'), hx(src))
+            try:
+                r = subprocess.run([h], input=req, capture_output=True, text=True, timeout=60)
+            except Exception:
+                return None
+            line = (r.stdout.strip().splitlines() or [''])[0]
+            if not line.startswith('GEN ok='):
+                return None
+            return line.startswith('GEN ok=0')
+        r0, r1, r2 = rejected(2147483646), rejected(2147483647), rejected(2147483648)
+        if (r0, r1, r2) == (False, True, True):
+            return '>='
+        if (r0, r1, r2) == (False, False, True):
+            return '>'
+        return None
+
+    for kind, src_, fname in (('gen', g, 'gen.cpp'), ('macro', mc, 'macro.cpp')):
+        try:
+            guards[kind] = guard_of(src_, fname)
+        except Refuse as e:
+            pr = probe(kind)
+            if pr is None:
+                raise
+            sys.stderr.write('translator: %s; threshold read off the behaviour of the built code instead (%s)\n' % (e, pr))
+            guards[kind] = pr
     return passes, bytes(out), stdname, phrase, genstd, guards, rootfs
 
 
